@@ -226,7 +226,7 @@ def block_upload(tier, seed):
     lengths = [1, 6, 7, 8, 14, 15, 30, 49, 50, 882, 883, 888, 889, 890, 896, 1000] + ([1777, 1778, 2667] if tier != "quick" else [])
     for n in lengths:
         value = bytes(rng.randrange(256) for _ in range(n))
-        for crc in (True, False):
+        for crc, req in ((True, True), (False, False), (True, False), (False, True)):
             nseg = (n + 6) // 7
             losses = [None] + [(0, s) for s in sorted({1, 2, nseg // 2, nseg - 1, min(nseg, 127)} & set(range(1, min(nseg, 127) + 1)))]
             for lose in losses:
@@ -238,16 +238,16 @@ def block_upload(tier, seed):
                     return holder["net"]
                 c = _client(mk)
                 try:
-                    with c.open(0x2000, 0, "rb", block_transfer=True, request_crc_support=crc, buffering=0) as fp:
+                    with c.open(0x2000, 0, "rb", block_transfer=True, request_crc_support=req, buffering=0) as fp:
                         got = fp.read()
                     err = None
                 except Exception as e:
                     got = None
                     err = repr(e)
                 if got is not None and got != value:
-                    failures.append({"len": n, "crc": crc, "lost": lose, "what": "returned %d bytes that differ from the server's %d" % (len(got), n)})
+                    failures.append({"len": n, "server_crc": crc, "client_crc": req, "lost": lose, "what": "returned %d bytes that differ from the server's %d" % (len(got), n)})
                 elif got is None and lose is None:
-                    failures.append({"len": n, "crc": crc, "lost": lose, "what": "undisturbed upload failed: " + str(err)})
+                    failures.append({"len": n, "server_crc": crc, "client_crc": req, "lost": lose, "what": "undisturbed upload failed: " + str(err)})
                 if len(failures) > 5:
                     break
     return {"kind": "bounded", "name": "C13 block upload against a reference CiA 301 block server: returns exactly the value, never different data",
